@@ -16,6 +16,13 @@ for line in table.splitlines():
     m=re.match(r'\| (C\d\d)-\d+ \|.*\| yes \|',line)
     if m and cnt.get(m.group(1),0)>0: masked+=1
 t=t.replace('@MASKCOUNT@',f"{masked} seeded changes against properties that already have listed findings were each reported under a new key")
+import glob
+rows=["| id | tier | level | evaluations | states / transitions | traces replayed | distinct | exhaustive | wall s |","|---|---|---|---|---|---|---|---|---|"]
+for f in sorted(glob.glob('/verif/evidence/C*.json')):
+    e=json.load(open(f)); c=e.get('coverage',{})
+    st=f"{c.get('states','')} / {c.get('transitions','')}" if 'states' in c else ''
+    rows.append(f"| {e['property_id']} | {e.get('tier')} | {e.get('level')} | {c.get('evaluations','')} | {st} | {c.get('traces_validated_against_impl','')} | {c.get('distinct_nontrivial','')} | {c.get('exhaustive','')} | {round(e.get('wall_s',0),1)} |")
+t=t.replace('@EVTABLE@','\n'.join(rows))
 t=t.replace('@NFIX@',str(len(k['fixed'])))
 open('/verif/DESIGN.md','w').write(d.rstrip('\n')+'\n'+t)
 print('DESIGN.md rebuilt;',len(k['known']),'known,',len(k['fixed']),'fixed')
